@@ -99,6 +99,131 @@ def _run_variant(args):
     return (v.name, v.kind, 'error', 'unknown variant kind')
 
 
+# ------------------------------------------------------------------ independent seeded changes (unified diffs) as overlays
+SEEDED = os.path.join(os.path.dirname(os.path.dirname(os.path.abspath(__file__))), 'seeded')
+
+
+def _apply_diff(root: str, diff_text: str) -> Optional[Dict[str, str]]:
+    """Apply a unified diff to the current files in memory.  A hunk is located by its old lines (context + removed), nearest to the
+    line the hunk states; None if any hunk cannot be placed (the tree has moved on: the variant is skipped, not passed)."""
+    overlay: Dict[str, str] = {}
+    cur_file = None
+    hunks: Dict[str, List[Tuple[int, List[str], List[str]]]] = {}
+    lines = diff_text.split('\n')
+    i = 0
+    while i < len(lines):
+        ln = lines[i]
+        if ln.startswith('+++ '):
+            pth = ln[4:].strip()
+            cur_file = pth[2:] if pth.startswith('b/') else pth
+            hunks.setdefault(cur_file, [])
+        elif ln.startswith('@@') and cur_file:
+            try:
+                start = int(ln.split('-')[1].split(',')[0].split(' ')[0])
+            except (IndexError, ValueError):
+                return None
+            old, new = [], []
+            i += 1
+            while i < len(lines) and not lines[i].startswith(('@@', 'diff ', '--- ', '+++ ')):
+                h = lines[i]
+                if h.startswith('+'):
+                    new.append(h[1:])
+                elif h.startswith('-'):
+                    old.append(h[1:])
+                elif h.startswith(' ') or h == '':
+                    if h == '' and i == len(lines) - 1:
+                        break
+                    old.append(h[1:])
+                    new.append(h[1:])
+                elif h.startswith('\\'):
+                    pass
+                i += 1
+            hunks[cur_file].append((start, old, new))
+            continue
+        i += 1
+    for rel, hs in hunks.items():
+        path = os.path.join(root, rel)
+        if not os.path.exists(path):
+            return None
+        with open(path, encoding='utf-8') as f:
+            text = f.read().split('\n')
+        shift = 0
+        for start, old, new in hs:
+            while old and old[-1] == '' and new and new[-1] == '' and len(old) > 1 and False:
+                old.pop(), new.pop()
+            cands = [k for k in range(0, len(text) - len(old) + 1) if text[k:k + len(old)] == old]
+            if not cands:
+                return None
+            k = min(cands, key=lambda c: abs(c - (start - 1 + shift)))
+            text[k:k + len(old)] = new
+            shift += len(new) - len(old)
+        overlay[rel] = '\n'.join(text)
+    return overlay
+
+
+def seeded_for(pid: str) -> List[Tuple[str, str]]:
+    """(name, diff text) of the independent seeded changes this pack is recorded to report (meta.json: detection_now.checks)"""
+    import glob
+    import json
+    out = []
+    for d in sorted(glob.glob(os.path.join(SEEDED, '*'))):
+        mp = os.path.join(d, 'meta.json')
+        if not os.path.isfile(mp):
+            continue
+        with open(mp) as f:
+            meta = json.load(f)
+        if pid in (meta.get('detection_now') or {}).get('checks', {}):
+            with open(os.path.join(d, 'patch.diff'), encoding='utf-8') as f:
+                out.append((os.path.basename(d), f.read()))
+    return out
+
+
+def _run_seeded(args):
+    pid, root, name, diff, base_fail = args
+    pack = importlib.import_module(f'sa.packs.{pid.lower()}')
+    overlay = _apply_diff(root, diff)
+    if overlay is None:
+        return (f'seeded:{name}', 'break', 'skipped', 'the patch no longer applies to the current tree')
+    try:
+        proj = Project(root, overlay=overlay)
+    except AnalysisError as e:
+        return (f'seeded:{name}', 'break', 'error', f'does not load: {e}')
+    res = core.run_pack(pid, 'quick', pack.check, proj=proj)
+    if res['error']:
+        return (f'seeded:{name}', 'break', 'error', f'analysis error instead of a verdict: {res["error"][:300]}')
+    fails = {o.key: o for o in res['ctx'].obligations if o.status == 'fail'}
+    new = [k for k in fails if k not in base_fail]
+    if new:
+        o = fails[sorted(new)[0]]
+        return (f'seeded:{name}', 'break', 'detected', f'{o.rule} at {o.site} [{o.construct}]')
+    return (f'seeded:{name}', 'break', 'MISS', 'no new failing obligation')
+
+
+def _run_sweep(args):
+    pid, root, tname, base_fail = args
+    from . import sweeps
+    pack = importlib.import_module(f'sa.packs.{pid.lower()}')
+    sweeps.set_root(root)
+    overlay = {}
+    try:
+        for rel in sweeps.py_files():
+            with open(os.path.join(root, rel), encoding='utf-8') as f:
+                overlay[rel] = sweeps.TRANSFORMS[tname](f.read(), rel)
+            compile(overlay[rel], rel, 'exec')
+    except Exception as e:
+        return (f'sweep:{tname}', 'neutral', 'skipped', f'transformation not applicable to the current tree: {type(e).__name__}: {e}')
+    res = core.run_pack(pid, 'quick', pack.check, proj=Project(root, overlay=overlay))
+    if res['error']:
+        return (f'sweep:{tname}', 'neutral', 'error', res['error'][:300])
+    fails = {o.key for o in res['ctx'].obligations if o.status == 'fail'}
+    new = sorted(fails - base_fail)
+    if new:
+        return (f'sweep:{tname}', 'neutral', 'FALSE-ALARM', f'new failing obligations {new[:3]}')
+    if res.get('floor_error'):
+        return (f'sweep:{tname}', 'neutral', 'error', res['floor_error'][:300])
+    return (f'sweep:{tname}', 'neutral', 'silent', '')
+
+
 def load_variants(pid: str) -> List[V]:
     try:
         mod = importlib.import_module(f'sa.variants.{pid.lower()}')
@@ -115,8 +240,12 @@ def run(pid: str, seed: int = 0, root: Optional[str] = None, jobs: int = 16) -> 
     if base is None or not variants:
         return {'summary': 'no variants' if not variants else 'baseline analysis error', 'detail': [], 'misses': [], 'lines': []}
     jobs_args = [(pid, root, v, base) for v in variants]
-    with ProcessPoolExecutor(max_workers=min(jobs, len(variants))) as ex:
-        results = list(ex.map(_run_variant, jobs_args))
+    from . import sweeps
+    with ProcessPoolExecutor(max_workers=jobs) as ex:
+        f1 = ex.map(_run_variant, jobs_args)
+        f2 = ex.map(_run_seeded, [(pid, root, n, d, base) for n, d in seeded_for(pid)])
+        f3 = ex.map(_run_sweep, [(pid, root, t, base) for t in sorted(sweeps.TRANSFORMS)])
+        results = list(f1) + list(f2) + list(f3)
     det = sum(1 for r in results if r[1] == 'break' and r[2].startswith('detected'))
     nb = sum(1 for r in results if r[1] == 'break' and r[2] != 'skipped')
     sil = sum(1 for r in results if r[1] in ('neutral', 'repair') and r[2] == 'silent')
